@@ -16,6 +16,11 @@ use crate::world::{ListenerObjs, Objs, SelService, SockObjs};
 const SHORT: Duration = Duration::from_nanos(1);
 const LONG: Duration = Duration::from_secs(3600);
 const SETTLE: Duration = Duration::from_micros(300);
+/// "mid" duration class of interval attachments (scripted timed programs only) and a sleep of more than 1.5 periods:
+/// after such a sleep at least one period boundary lies between two examinations of the deadlines, whatever the
+/// scheduling delays were (no verdict depends on how long anything really took beyond "at least")
+const MID: Duration = Duration::from_millis(120);
+const MIDSLEEP: Duration = Duration::from_millis(200);
 const FD_SETSIZE: usize = 1024;
 
 #[derive(Clone, Debug)]
@@ -285,7 +290,7 @@ fn exec<S: Service + 'static, O: Objs>(
                         continue;
                     }
                 }
-                let d = if c == "s" { SHORT } else { LONG };
+                let d = if c == "s" { SHORT } else if c == "m" { MID } else { LONG };
                 let res = match ty {
                     'n' => ws.attach_notification(objs.att(l)),
                     'd' => ws.attach_deadline(objs.att(l), d),
@@ -362,8 +367,15 @@ fn exec<S: Service + 'static, O: Objs>(
                 stats.op("recreate");
                 sink.emit(json!({"k":"op","a":"recreate","l":l}));
             }
+            "sleep" => {
+                std::thread::sleep(MIDSLEEP);
+                stats.op("sleep");
+                sink.emit(json!({"k":"op","a":"sleep","in":0}));
+            }
             "process" => {
                 let stop = u(&step, "stop");
+                // sleep inside the slp-th callback (timed programs)
+                let slp = u(&step, "slp");
                 let inj: Vec<(usize, usize)> = step
                     .get("inj")
                     .and_then(|x| x.as_array())
@@ -420,6 +432,10 @@ fn exec<S: Service + 'static, O: Objs>(
                                     .borrow_mut()
                                     .emit(json!({"k":"op","a":"notify","s":*s,"in":1,"n":n}));
                             }
+                        }
+                        if slp > 0 && ncb.get() == slp {
+                            std::thread::sleep(MIDSLEEP);
+                            sink_cell.borrow_mut().emit(json!({"k":"op","a":"sleep","in":1}));
                         }
                         if stop > 0 && ncb.get() == stop {
                             stopped.set(true);
